@@ -52,7 +52,7 @@ def tasks(tier, seed):
     T.append(('stoprule',))
     from harness import c07
 
-    for t in c07.tasks(tier, seed):
+    for t in c07.tasks(tier, seed, deepest=False):
         if t[7] is None or quick:
             T.append(('ctrl', t))
     for cfg in ([(1, 1, 3, 'full_abs'), (2, 1, 2, 'last_abs'), (2, 1, 3, 'full_abs'), (1, 2, 2, 'full_abs'), (2, 2, 2, 'full_abs')] if quick else
